@@ -19,7 +19,7 @@ from mc.systems._rxn_common import IDS, N, POS, MENU, MENU_INDEX
 
 PROPERTY = 'C17'
 RULE = ('BFS over operator applications on a heap {a,b,c,r,p} of real Reaction objects sharing a reactant; depth 2 enumerates all '
-        'expression trees of depth <= 2 over {a+b, a-b, sum, k*a, a*k, a/k, -a, copy, copy(basis), x.basis= (in place), backwards, +=, -=, *=, /=, '
+        'expression trees of depth <= 2 over {a+b, a-b, sum, k*a, a*k, a/k, -a, copy, copy(same basis), copy(other basis), x.basis= (in place), backwards, +=, -=, *=, /=, '
         'ParallelReaction([x,y]), item.X=, set.X[i]=, set.X=, item*=k, item/=k, item*k, reduce, set.copy}.  Two histories are merged iff the complete field digests '
         '(stoichiometry incl. stored zeros, reactant index, X, basis, phases, object identity/aliasing classes) of all heap members '
         'agree.  A transition is non-trivial when it built or changed a reaction whose extent vector differs from every operand\'s, '
@@ -176,7 +176,7 @@ class Arith(System):
                     acts.append(('iadd', x, y)); acts.append(('isub', x, y))
             for k in self.ks:
                 acts += [('mul', x, k), ('rmul', x, k), ('div', x, k), ('imul', x, k), ('idiv', x, k)]
-            acts += [('neg', x), ('copy', x), ('rebase', x), ('ibasis', x), ('back', x, None)]
+            acts += [('neg', x), ('copy', x), ('copysame', x), ('rebase', x), ('ibasis', x), ('back', x, None)]
             for pr in self._products(st, x): acts.append(('back', x, pr))
         acts.append(('sum', 'a', 'b'))
         for x, y in (('a', 'b'), ('b', 'c'), ('a', 'r'), ('c', 'a')):
@@ -396,10 +396,12 @@ class Arith(System):
                 ox.basis = nb; return ox
             new = run(f); target = x
             operands = {x}
-        elif op in ('neg', 'copy', 'rebase'):
+        elif op in ('neg', 'copy', 'copysame', 'rebase'):
             _, x = a
             vx = val[x]; ox = obj[x]
-            if op == 'neg':
+            if op == 'copysame':            # copy(basis=<the basis it already has>)
+                newval = vx.copy(); new = run(lambda: ox.copy(basis=vx.basis))
+            elif op == 'neg':
                 newval = Val(-vx.E, vx.ridx, vx.basis, vx.phases, vx.nu); new = run(lambda: -ox)
             elif op == 'copy':
                 newval = vx.copy(); new = run(lambda: ox.copy())
@@ -631,7 +633,7 @@ REDUCED = {
     ('add', 'a', 'b'), ('add', 'r', 'a'), ('add', 'r', 'b'), ('add', 'r', 'r'), ('sub', 'a', 'b'), ('sub', 'b', 'a'), ('sub', 'r', 'a'), ('sub', 'r', 'b'),
     ('sub', 'a', 'r'), ('iadd', 'a', 'b'), ('iadd', 'r', 'a'), ('iadd', 'a', 'r'), ('isub', 'a', 'b'), ('isub', 'r', 'b'), ('isub', 'b', 'r'),
     ('mul', 'a', 2.0), ('rmul', 'r', 0.5), ('imul', 'a', 0.5), ('imul', 'r', 2.0), ('div', 'r', 2.0), ('idiv', 'a', 2.0), ('idiv', 'r', 0.5),
-    ('neg', 'a'), ('neg', 'r'), ('copy', 'r'), ('rebase', 'a'), ('rebase', 'r'), ('ibasis', 'r'), ('ibasis', 'a'),
+    ('neg', 'a'), ('neg', 'r'), ('copy', 'r'), ('copysame', 'a'), ('copysame', 'r'), ('rebase', 'a'), ('rebase', 'r'), ('ibasis', 'r'), ('ibasis', 'a'),
     ('pset', 'a', 'b'), ('pset', 'a', 'r'), ('itemX', 0, 0.25), ('heldX', 1, 0.25), ('setXi', 1, 0.0), ('setX', 0.125, 0.375), ('reduce',),
     ('pcopy', None), ('pcopy', 'other'), ('itemimul', 0, 2.0), ('itemidiv', 1, 2.0), ('helditemimul', 0, 0.5), ('itemmul', 1, 2.0),
 }
